@@ -232,4 +232,6 @@ class C01(PropBase):
                 "inexact decimal arithmetic is outside the modelled domain (DESIGN.md F17, known finding)"]
 
 
+import deccontract  # noqa: E402
+deccontract.install(C01, ["mul", "parse", "neg"])
 PROP = C01()
